@@ -1485,4 +1485,310 @@ example :
   simp only [legalRun, and_true, true_and]
   refine ⟨?_, ?_, ?_⟩ <;> (intro r hr; revert r; decide)
 
+/-! ### what is sent is what is stored (bolt) -/
+
+/-- everything the stream holds — sent, queued, or visible to its open cursor — is an entry of the bolt store -/
+def SS (x : Sys) : Prop :=
+  ∃ bs, x.store = .bolt bs ∧ (∀ p ∈ bs, p.2.round = p.1) ∧ (∀ b ∈ x.s.sent, (b.round, b) ∈ bs) ∧
+    (∀ b ∈ queueBeacons x.s.queue, (b.round, b) ∈ bs) ∧
+    (match x.s.phase with
+     | .scanning (.bolt c) => ∀ p ∈ c.snap, p ∈ bs
+     | .scanning (.mem _) => False
+     | _ => True)
+
+private theorem ss_step (x : Sys) (e : Ev) (h : SS x) (hl : match e with | .put b => x.store.allLt b.round | _ => True) :
+    SS (Sys.step .asIs x e) := by
+  obtain ⟨bs, hst, hlab, hsent, hq, hc⟩ := h
+  cases e with
+  | put b =>
+    rw [hst] at hl
+    have hab : ∀ p ∈ bs, p.1 < b.round := fun p hp => hl p.1 (by simp [Store.rounds]; exact ⟨p.2, hp⟩)
+    have hput : x.store.put b = .bolt (bs ++ [(b.round, b)]) := by
+      rw [hst]; simp [Store.put, Bolt.put, insert_above' _ _ _ hab]
+    have hsub : ∀ p, p ∈ bs → p ∈ bs ++ [(b.round, b)] := fun p hp => List.mem_append_left _ hp
+    refine ⟨bs ++ [(b.round, b)], hput, ?_, ?_, ?_, ?_⟩
+    · intro p hp
+      rcases List.mem_append.mp hp with h1 | h1
+      · exact hlab p h1
+      · simp at h1; subst h1; rfl
+    · simp only [Sys.step, Strm.onPut]
+      split <;> exact fun b' hb' => hsub _ (hsent b' hb')
+    · simp only [Sys.step, Strm.onPut]
+      split
+      · intro b' hb'
+        simp only [queueBeacons, List.filterMap_append, List.mem_append] at hb'
+        rcases hb' with h1 | h1
+        · exact hsub _ (hq b' h1)
+        · simp at h1; subst h1; simp
+      · exact fun b' hb' => hsub _ (hq b' hb')
+    · have hph : (Sys.step .asIs x (.put b)).s.phase = x.s.phase := by
+        simp only [Sys.step, Strm.onPut]; split <;> rfl
+      simp only [hph]
+      cases hp : x.s.phase with
+      | scanning c =>
+        cases c with
+        | bolt c => simp only [hp] at hc ⊢; exact fun p hp' => hsub _ (hc p hp')
+        | mem pos => simp [hp] at hc
+      | _ => simp
+  | start =>
+    refine ⟨bs, hst, hlab, ?_⟩
+    simp only [Sys.step, Strm.start]
+    split
+    · split
+      · exact ⟨hsent, hq, trivial⟩
+      · split
+        · exact ⟨hsent, hq, trivial⟩
+        · split <;> exact ⟨hsent, hq, trivial⟩
+    · exact ⟨hsent, hq, hc⟩
+  | scanOpen =>
+    refine ⟨bs, hst, hlab, ?_⟩
+    simp only [Sys.step, Strm.scanOpen]
+    split
+    · rw [hst]
+      simp only [Bolt.cursorStep, Cursor.move]
+      by_cases hi : seekIdx x.s.frm bs < bs.length
+      · simp only [hi, if_true]
+        have hget : bs[seekIdx x.s.frm bs]? = some bs[seekIdx x.s.frm bs] := by simp [hi]
+        rw [hget]
+        simp only [emit]
+        have hmem : bs[seekIdx x.s.frm bs] ∈ bs := List.getElem_mem hi
+        refine ⟨?_, hq, fun p hp => hp⟩
+        intro b' hb'
+        rcases List.mem_append.mp hb' with h1 | h1
+        · exact hsent b' h1
+        · simp at h1; subst h1
+          have := hlab _ hmem
+          rw [this]; exact hmem
+      · simp only [hi, if_false]
+        exact ⟨hsent, hq, trivial⟩
+    · exact ⟨hsent, hq, hc⟩
+  | scanNext =>
+    refine ⟨bs, hst, hlab, ?_⟩
+    simp only [Sys.step, Strm.scanNext]
+    split
+    · rename_i c hp
+      simp only [hp] at hc
+      obtain ⟨snap, pos⟩ := c
+      simp only [Bolt.cursorStep, Cursor.move]
+      cases pos with
+      | none => simp; exact ⟨hsent, hq⟩
+      | some j =>
+        by_cases hn : j + 1 < snap.length
+        · simp only [hn, if_true]
+          have hget : snap[j + 1]? = some snap[j + 1] := by simp [hn]
+          rw [hget]
+          simp only [emit]
+          have hmem : snap[j + 1] ∈ bs := hc _ (List.getElem_mem hn)
+          refine ⟨?_, hq, hc⟩
+          intro b' hb'
+          rcases List.mem_append.mp hb' with h1 | h1
+          · exact hsent b' h1
+          · simp at h1; subst h1
+            have := hlab _ hmem
+            rw [this]; exact hmem
+        · simp only [hn, if_false]
+          exact ⟨hsent, hq, trivial⟩
+    · rename_i pos hp; simp [hp] at hc
+    · exact ⟨hsent, hq, hc⟩
+  | register =>
+    refine ⟨bs, hst, hlab, ?_⟩
+    simp only [Sys.step, Strm.register]
+    split
+    · exact ⟨hsent, by simp [queueBeacons], trivial⟩
+    · exact ⟨hsent, hq, hc⟩
+  | deliver =>
+    refine ⟨bs, hst, hlab, ?_⟩
+    simp only [Sys.step, Strm.deliver]
+    split
+    · rename_i hp
+      split
+      · exact ⟨hsent, hq, hc⟩
+      · rename_i b q hqu
+        simp only [emit]
+        have hb : (b.round, b) ∈ bs := hq b (by simp [hqu, queueBeacons])
+        refine ⟨?_, fun b' hb' => hq b' (by simp [hqu, queueBeacons] at hb' ⊢; exact Or.inr hb'), by simp [hp]⟩
+        intro b' hb'
+        rcases List.mem_append.mp hb' with h1 | h1
+        · exact hsent b' h1
+        · simp at h1; subst h1; exact hb
+      · rename_i q hqu
+        exact ⟨hsent, fun b' hb' => hq b' (by simpa [hqu, queueBeacons] using hb'), trivial⟩
+    · exact ⟨hsent, hq, hc⟩
+  | replaced =>
+    refine ⟨bs, hst, hlab, ?_⟩
+    simp only [Sys.step, Strm.replaced]
+    split
+    · exact ⟨hsent, fun b' hb' => hq b' (by simpa [queueBeacons, List.filterMap_append] using hb'), hc⟩
+    · exact ⟨hsent, hq, hc⟩
+  | detached => exact ⟨bs, hst, hlab, hsent, hq, hc⟩
+  | cancel =>
+    refine ⟨bs, hst, hlab, ?_⟩
+    simp only [Sys.step, Strm.cancel]
+    split
+    · exact ⟨hsent, hq, hc⟩
+    · split
+      · exact ⟨hsent, hq, trivial⟩
+      · split <;> exact ⟨hsent, hq, trivial⟩
+    · exact ⟨hsent, hq, trivial⟩
+  | sendFail =>
+    refine ⟨bs, hst, hlab, ?_⟩
+    simp only [Sys.step, Strm.sendFail]
+    split
+    · exact ⟨hsent, hq, trivial⟩
+    · split
+      · exact ⟨hsent, hq, hc⟩
+      · rename_i b q hqu
+        have hb : (b.round, b) ∈ bs := hq b (by simp [hqu, queueBeacons])
+        refine ⟨?_, fun b' hb' => hq b' (by simp [hqu, queueBeacons] at hb' ⊢; exact Or.inr hb'), trivial⟩
+        intro b' hb'
+        rcases List.mem_append.mp hb' with h1 | h1
+        · exact hsent b' h1
+        · simp at h1; subst h1; exact hb
+      · rename_i q hqu
+        exact ⟨hsent, fun b' hb' => hq b' (by simpa [hqu, queueBeacons] using hb'), trivial⟩
+    · exact ⟨hsent, hq, hc⟩
+
+
+private theorem lookup_of_mem_pairwise (bs : BoltState) (h : (bs.map (·.1)).Pairwise (· < ·)) (p : Nat × Beacon) (hp : p ∈ bs) :
+    lookup p.1 bs = some p.2 := by
+  induction bs with
+  | nil => cases hp
+  | cons a t ih =>
+    obtain ⟨k, v⟩ := a
+    simp only [List.map_cons, List.pairwise_cons] at h
+    rcases List.mem_cons.mp hp with rfl | hp
+    · simp [lookup]
+    · have hlt : k < p.1 := h.1 p.1 (by simp; exact ⟨p.2, hp⟩)
+      have hne : ¬ p.1 = k := by omega
+      simp only [lookup, hne, if_false]
+      exact ih h.2 hp
+
+/-- **C11, content (bolt, code as it is).** For every schedule with chain-legal appends, every beacon handed to the
+client — in the scan phase or live — is, byte for byte, the beacon the store holds for that round. -/
+theorem c11_sent_stored (x : Sys) (bs0 : BoltState) (hst : x.store = .bolt bs0) (hS : StoreOK x.store)
+    (hidle : match x.s.phase with | .idle => True | _ => False)
+    (hfresh : x.s.sent = [] ∧ x.s.queue = [] ∧ x.s.attached = false) (es : List Ev) (hleg : legalRun x es) :
+    ∃ bs, (Sys.run .asIs x es).store = .bolt bs ∧ ∀ b ∈ (Sys.run .asIs x es).s.sent, Bolt.get bs b.round = .ok b := by
+  have h0 : SS x := by
+    refine ⟨bs0, hst, ?_, by simp [hfresh.1], by simp [hfresh.2.1, queueBeacons], ?_⟩
+    · rw [hst] at hS; exact hS.2
+    · cases hp : x.s.phase <;> simp [hp] at hidle ⊢
+  have hNR0 : NR x := by
+    refine ⟨hS, by simp [hfresh.1, hfresh.2.1, roundsOf, jobRounds], by simp [hfresh.1, hfresh.2.1, roundsOf, jobRounds], ?_⟩
+    unfold NRc
+    cases hp : x.s.phase <;> simp [hp] at hidle ⊢
+    exact ⟨hfresh.2.1, hfresh.2.2, hfresh.1⟩
+  have key : ∀ (es : List Ev) (x : Sys), SS x → legalRun x es → SS (Sys.run .asIs x es) := by
+    intro es
+    induction es with
+    | nil => intro x h _; exact h
+    | cons e es ih => intro x h hl; exact ih _ (ss_step x e h hl.1) hl.2
+  obtain ⟨bs, h1, _, h3, _⟩ := key es x h0 hleg
+  have hok := (nr_run es x hNR0 hleg).1
+  rw [h1] at hok
+  refine ⟨bs, h1, fun b hb => ?_⟩
+  have := lookup_of_mem_pairwise bs hok.1 _ (h3 b hb)
+  simp [Bolt.get, this]
+
+/-! ### several streams: each one sees a run of the single-stream machine -/
+
+private theorem find_unique (l : List Entry) (sid : String) (me me0 : Entry)
+    (hnd : (l.map (·.sid)).Nodup) (hf : l.find? (·.sid == sid) = some me0) (hme : me ∈ l) (hs : me.sid = sid) : me0 = me := by
+  induction l with
+  | nil => cases hme
+  | cons a t ih =>
+    simp only [List.map_cons, List.nodup_cons] at hnd
+    simp only [List.find?_cons] at hf
+    cases hb : (a.sid == sid) with
+    | true =>
+      have ha : a.sid = sid := by simpa using hb
+      rw [hb] at hf
+      cases hf
+      rcases List.mem_cons.mp hme with rfl | hme
+      · rfl
+      · exfalso; apply hnd.1
+        simp only [List.mem_map]
+        exact ⟨me, hme, by rw [hs, ha]⟩
+    | false =>
+      have ha : ¬ a.sid = sid := by simpa using hb
+      rw [hb] at hf
+      rcases List.mem_cons.mp hme with rfl | hme
+      · exact absurd hs ha
+      · exact ih hnd.2 hf hme
+
+/-- **C11, several streams and reconnects.** In a system of any number of streams over one callback store (distinct stream
+handles, callback ids shared by streams from one address), every step of the system — an append, or a step of any
+stream — is, for each single stream, one step of the single-stream machine (its own step, or `replaced` / `detached`
+caused by another stream under its id), or no step at all. Hence every statement above that holds for ALL event sequences
+(`c11_scan_exact`, `c11_no_repeat`, `c11_sent_stored`, `c11_exact_tracked`) holds for every stream of such a system. -/
+theorem c11_net_projection (h : Handover) (n : Net) (hnd : (n.streams.map (·.sid)).Nodup) (me : Entry) (hme : me ∈ n.streams) :
+    (∀ b, ∃ me' ∈ (n.put b).streams, me'.sid = me.sid ∧ me'.addr = me.addr ∧
+        (⟨(n.put b).store, me'.s⟩ : Sys) = Sys.step h ⟨n.store, me.s⟩ (.put b)) ∧
+    (∀ sid' ev, ∃ me' ∈ (n.own h sid' ev).streams, me'.sid = me.sid ∧ me'.addr = me.addr ∧ (n.own h sid' ev).store = n.store ∧
+        (me'.s = me.s ∨ ∃ e : Ev, (⟨n.store, me'.s⟩ : Sys) = Sys.step h ⟨n.store, me.s⟩ e)) := by
+  constructor
+  · intro b
+    refine ⟨{ me with s := me.s.onPut b }, ?_, rfl, rfl, rfl⟩
+    simp only [Net.put, List.mem_map]
+    exact ⟨me, hme, rfl⟩
+  · intro sid' ev
+    unfold Net.own
+    cases hf : n.streams.find? (·.sid == sid') with
+    | none => exact ⟨me, hme, rfl, rfl, rfl, Or.inl rfl⟩
+    | some me0 =>
+      by_cases hs : me.sid = sid'
+      · have := find_unique n.streams sid' me me0 hnd hf hme hs
+        subst this
+        refine ⟨{ me0 with s := (Sys.step h ⟨n.store, me0.s⟩ ev.toEv).s }, ?_, rfl, rfl, rfl, Or.inr ⟨ev.toEv, ?_⟩⟩
+        · simp only [List.mem_map]
+          exact ⟨me0, hme, by simp [hs]⟩
+        · cases ev <;> rfl
+      · by_cases ha : me.addr = me0.addr
+        · cases heff : effectOf n.store ev me0.s (Sys.step h ⟨n.store, me0.s⟩ ev.toEv).s with
+          | none =>
+            refine ⟨me, ?_, rfl, rfl, rfl, Or.inl rfl⟩
+            simp only [List.mem_map]
+            exact ⟨me, hme, by simp [hs, ha, heff]⟩
+          | add =>
+            refine ⟨{ me with s := me.s.replaced }, ?_, rfl, rfl, rfl, Or.inr ⟨.replaced, rfl⟩⟩
+            simp only [List.mem_map]
+            exact ⟨me, hme, by simp [hs, ha, heff]⟩
+          | remove =>
+            refine ⟨{ me with s := me.s.detached }, ?_, rfl, rfl, rfl, Or.inr ⟨.detached, rfl⟩⟩
+            simp only [List.mem_map]
+            exact ⟨me, hme, by simp [hs, ha, heff]⟩
+        · refine ⟨me, ?_, rfl, rfl, rfl, Or.inl rfl⟩
+          simp only [List.mem_map]
+          exact ⟨me, hme, by simp [hs, ha]⟩
+
+/-! ### non-vacuity of the conditional theorems -/
+
+private theorem okStore : BoltInv [(1, tb 1), (2, tb 2), (3, tb 3)] :=
+  ⟨⟨by decide, by decide, trivial⟩, by intro p hp; simp at hp; rcases hp with rfl | rfl | rfl <;> rfl⟩
+
+-- `c11_exact_partial`: its hypotheses hold on a concrete run (scan without appends, then appends and a delivery)
+example : ∃ bs', roundsOf (scanOut bs' 2) = [2, 3, 4, 5] ∧
+    (Sys.run .asIs (Sys.step .asIs (Sys.run .asIs (Sys.step .asIs ⟨.bolt [(1, tb 1), (2, tb 2), (3, tb 3)], { frm := 2, phase := .started }⟩ .scanOpen)
+        [.scanNext, .scanNext]) .register) [.put (tb 4), .deliver, .put (tb 5)]).store = .bolt bs' := by
+  obtain ⟨bs', h1, _⟩ := c11_exact_partial [(1, tb 1), (2, tb 2), (3, tb 3)] okStore 3 (by decide) { frm := 2, phase := .started } rfl rfl
+    (by decide) [.scanNext, .scanNext] [.put (tb 4), .deliver, .put (tb 5)] (by decide) trivial (by decide) ⟨by decide, by decide, trivial⟩
+  refine ⟨bs', ?_, h1⟩
+  have : bs' = [(1, tb 1), (2, tb 2), (3, tb 3), (4, tb 4), (5, tb 5)] := by
+    have h2 : (Sys.run .asIs (Sys.step .asIs (Sys.run .asIs (Sys.step .asIs ⟨.bolt [(1, tb 1), (2, tb 2), (3, tb 3)], { frm := 2, phase := .started }⟩ .scanOpen)
+        [.scanNext, .scanNext]) .register) [.put (tb 4), .deliver, .put (tb 5)]).store = .bolt [(1, tb 1), (2, tb 2), (3, tb 3), (4, tb 4), (5, tb 5)] := by rfl
+    rw [h2] at h1; cases h1; rfl
+  subst this; decide
+
+-- `c11_sent_stored` / `c11_no_repeat`: a fresh stream on a well-formed store with a legal run
+example : ∃ bs, ∀ b ∈ (Sys.run .asIs ⟨.bolt [(1, tb 1), (2, tb 2), (3, tb 3)], { frm := 2 }⟩
+    [.start, .scanOpen, .put (tb 4), .scanNext, .scanNext, .register, .put (tb 5), .deliver]).s.sent, Bolt.get bs b.round = .ok b := by
+  have hS : StoreOK (.bolt [(1, tb 1), (2, tb 2), (3, tb 3)]) :=
+    ⟨by decide, by intro p hp; simp at hp; rcases hp with rfl | rfl | rfl <;> rfl⟩
+  have hleg : legalRun ⟨.bolt [(1, tb 1), (2, tb 2), (3, tb 3)], { frm := 2 }⟩
+      [.start, .scanOpen, .put (tb 4), .scanNext, .scanNext, .register, .put (tb 5), .deliver] := by
+    simp only [legalRun, and_true, true_and]
+    refine ⟨?_, ?_⟩ <;> (intro r hr; revert r; decide)
+  obtain ⟨bs, _, h⟩ := c11_sent_stored _ _ rfl hS trivial ⟨rfl, rfl, rfl⟩ _ hleg
+  exact ⟨bs, h⟩
+
 end Drand.Beacon.Stream
